@@ -13,6 +13,13 @@ it is explored on the real code with the observer hook and sanitizers by `checks
 namespace Teakra.C18
 open Teakra.Bus
 
+private theorem byteAddr_of_inRange (wa : U32) (h : Mem.inRange wa = true) : Mem.byteAddr wa + 1 < 0x80000 := by
+  unfold Mem.inRange at h
+  unfold Mem.byteAddr
+  have hlt : wa.toNat < 0x40000 := by simpa using h
+  have : (wa * 2).toNat = wa.toNat * 2 := by rw [BitVec.toNat_mul]; simp; omega
+  rw [this]; omega
+
 /-- A completed word read touched two bytes inside the array. -/
 theorem readWord_inbounds (m : Mem) (wa : U32) (v : U16) (a : Access) (h : m.readWord wa = .ok (v, a)) :
     a.byteAddr + 1 < 0x80000 ∧ a.byteAddr = Mem.byteAddr wa := by
@@ -20,7 +27,7 @@ theorem readWord_inbounds (m : Mem) (wa : U32) (v : U16) (a : Access) (h : m.rea
   split at h
   · rename_i hr
     cases h
-    exact ⟨by simpa [Mem.inRange] using hr, rfl⟩
+    exact ⟨byteAddr_of_inRange wa hr, rfl⟩
   · cases h
 
 /-- A completed word write touched two bytes inside the array. -/
@@ -30,8 +37,17 @@ theorem writeWord_inbounds (m m' : Mem) (wa : U32) (v : U16) (a : Access) (h : m
   split at h
   · rename_i hr
     cases h
-    exact ⟨by simpa [Mem.inRange] using hr, rfl⟩
+    exact ⟨byteAddr_of_inRange wa hr, rfl⟩
   · cases h
+
+/-- **No access outside the array, on any path.**  `SharedMemory::ReadWord/WriteWord` — the only functions
+of the model that touch the array — either perform an access inside it or end in the deliberate assertion;
+`oob` is not an outcome of the memory any more. -/
+theorem readWord_never_oob (m : Mem) (wa : U32) : m.readWord wa ≠ .error .oob := by
+  unfold Mem.readWord; split <;> simp
+
+theorem writeWord_never_oob (m : Mem) (wa : U32) (v : U16) : m.writeWord wa v ≠ .error .oob := by
+  unfold Mem.writeWord; split <;> simp
 
 /-- Every access a completed `ProgramRead` reports is inside the array. -/
 theorem programRead_inbounds (b : Bus) (p : U32) (v : U16) (accs : List Access)
@@ -48,34 +64,25 @@ theorem programRead_inbounds (b : Bus) (p : U32) (v : U16) (accs : List Access)
     subst ha
     exact (readWord_inbounds _ _ _ _ hr).1
 
-/-- `ProgramRead` is out of bounds exactly when the word address is outside the array (for addresses
-below 2^31: exactly when it is `≥ 0x40000`). -/
+/-- `ProgramRead` ends in the assertion exactly when the word address is outside the 0x40000 words
+(named `…_oob_iff` for the outcome it replaces: on the pinned upstream tree this was the out-of-bounds read). -/
 theorem programRead_oob_iff (b : Bus) (p : U32) :
-    (b.programRead p = .error .oob ↔ Mem.inRange p = false) ∧
-    (p.toNat < 0x80000000 → (b.programRead p = .error .oob ↔ 0x40000 ≤ p.toNat)) := by
-  have key : b.programRead p = .error .oob ↔ Mem.inRange p = false := by
+    (b.programRead p = .error .assert ↔ Mem.inRange p = false) ∧
+    (b.programRead p = .error .assert ↔ 0x40000 ≤ p.toNat) := by
+  have key : b.programRead p = .error .assert ↔ Mem.inRange p = false := by
     unfold programRead Mem.readWord
     cases hr : Mem.inRange p <;> simp
   refine ⟨key, ?_⟩
-  intro hp
   rw [key]
-  have h := (mem_bounds p).2 hp
-  cases hr : Mem.inRange p with
-  | false =>
-    have hn : ¬ p.toNat < 0x40000 := fun hlt => by rw [h.mpr hlt] at hr; cases hr
-    constructor
-    · intro _; omega
-    · intro _; rfl
-  | true =>
-    have hlt := h.mp hr
-    constructor
-    · intro hc; cases hc
-    · intro hc; omega
+  unfold Mem.inRange
+  simp
 
 theorem programWrite_oob_iff (b : Bus) (p : U32) (v : U16) :
-    b.programWrite p v = .error .oob ↔ Mem.inRange p = false := by
-  unfold programWrite Mem.writeWord
-  cases hr : Mem.inRange p <;> simp
+    b.programWrite p v = .error .assert ↔ 0x40000 ≤ p.toNat := by
+  unfold programWrite Mem.writeWord Mem.inRange
+  by_cases h : p.toNat < 0x40000
+  · simp [h]
+  · simp [h]; omega
 
 /-- **A data access never leaves the array** in the default paging mode: with bank `z < 2` a load or
 store outside the MMIO window (or with bypass) completes. (`z ≥ 2` is an assertion abort, not an
@@ -109,36 +116,28 @@ theorem data_access_never_oob (b : Bus) (a v : U16) (bypass : Bool) (hp : b.miu.
 
 /-- **Instruction fetch.**  The fetch address `prpage << 18 | pc` is inside the array exactly when
 `prpage` (4 bits) is 0 and `pc < 0x40000`. -/
-theorem fetch_inrange_iff (r : Regs) (hpc : r.pc.toNat < 2 ^ 22) (hpg : r.prpage.toNat < 16) :
+theorem fetch_inrange_iff (r : Regs) (hpg : r.prpage.toNat < 16) :
     Mem.inRange (Sys.fetchAddress r) = true ↔ (r.prpage = 0 ∧ r.pc.toNat < 0x40000) := by
-  have hlt : (Sys.fetchAddress r).toNat < 0x80000000 := by
-    unfold Sys.fetchAddress
-    have h1 : ((r.prpage.setWidth 32 : U32) <<< 18).toNat < 2 ^ 22 := by
-      simp [BitVec.toNat_shiftLeft]
-      omega
-    have := BitVec.toNat_or (x := r.pc) (y := (r.prpage.setWidth 32 : U32) <<< 18)
-    rw [this]
-    have := Nat.or_lt_two_pow (n := 22) hpc h1
+  unfold Mem.inRange Sys.fetchAddress
+  have h3 : ((r.prpage.setWidth 32 : U32) <<< 18).toNat = r.prpage.toNat * 2 ^ 18 := by
+    simp [BitVec.toNat_shiftLeft, Nat.shiftLeft_eq]
     omega
-  rw [(mem_bounds _).2 hlt]
-  unfold Sys.fetchAddress
+  have hor := BitVec.toNat_or (x := r.pc) (y := (r.prpage.setWidth 32 : U32) <<< 18)
   constructor
   · intro h
-    have hor := BitVec.toNat_or (x := r.pc) (y := (r.prpage.setWidth 32 : U32) <<< 18)
-    rw [hor] at h
+    have h' : (r.pc ||| (r.prpage.setWidth 32 : U32) <<< 18).toNat < 0x40000 := by simpa using h
+    rw [hor] at h'
     have h1 : r.pc.toNat ≤ r.pc.toNat ||| ((r.prpage.setWidth 32 : U32) <<< 18).toNat := Nat.left_le_or
     have h2 : ((r.prpage.setWidth 32 : U32) <<< 18).toNat ≤ r.pc.toNat ||| ((r.prpage.setWidth 32 : U32) <<< 18).toNat := Nat.right_le_or
     refine ⟨?_, by omega⟩
-    have h3 : ((r.prpage.setWidth 32 : U32) <<< 18).toNat = r.prpage.toNat * 2 ^ 18 := by
-      simp [BitVec.toNat_shiftLeft, Nat.shiftLeft_eq]
-      omega
     have : r.prpage.toNat = 0 := by omega
     exact BitVec.eq_of_toNat_eq (by simpa using this)
   · rintro ⟨h0, hpc'⟩
     rw [h0]
     simpa using hpc'
 
-/-- The two recorded ways a fetch leaves the array. -/
+/-- The two ways a fetch address can be outside the program space: both now end in the assertion of
+`SharedMemory::ReadWord` (on the pinned upstream tree they read beyond the array). -/
 theorem fetch_oob_witness_prpage :
     Mem.inRange (Sys.fetchAddress { pc := 0x100, prpage := 1 }) = false := by decide
 theorem fetch_oob_witness_pc :
